@@ -118,4 +118,50 @@ theorem look_eq (ts : List Spanned) : ∀ (i : Nat) (n : Int) (l : Nat) (sc : Bo
       cases hc : classify t.tok <;> simp only [hc] at hf ⊢ <;>
       by_cases hn : n = 0 <;> by_cases hi : i = 0 <;> cases sc <;> simp_all
 
+/-! ### `type`: the state `start_of_statement` / `nesting` (repaired code: a type alias may follow `;` or the
+     `:` of a one-line compound header) -/
+
+/-- the repair is conservative: wherever `start_of_line` holds, `start_of_statement` holds too, so every `type`
+    token that was examined before the repair is still examined (invariant of `SoftSt.next`, true initially) -/
+theorem next_sol_imp_sos (st : SoftSt) (tok : Tok) (h : st.sol = true → st.sos = true) :
+    (st.next tok).sol = true → (st.next tok).sos = true := by
+  simp only [SoftSt.next, nextSol, nextSos]
+  by_cases ht : tok.isTrivia = true
+  · simpa [ht] using h
+  · simp only [ht, Bool.false_eq_true, if_false]
+    split <;> simp_all
+
+theorem init_sol_imp_sos (mode : Mode) : (SoftSt.init mode).sol = true → (SoftSt.init mode).sos = true := by
+  simp [SoftSt.init]
+
+/-- `;` and `:` set `start_of_statement` exactly when no bracket is open; every other ordinary token clears it -/
+theorem next_sos_semi_colon (st : SoftSt) (tok : Tok) (h : tok = .op .Semi ∨ tok = .op .Colon) :
+    (st.next tok).sos = (st.nesting == 0) ∧ (st.next tok).nesting = st.nesting ∧ (st.next tok).sol = false := by
+  rcases h with rfl | rfl <;> simp [SoftSt.next, nextSol, nextSos, nextNesting, Tok.isTrivia]
+
+private def sp' (t : Tok) : Spanned := ⟨t, 0, 0, 0, 0⟩
+private def nm' (s : String) : Tok := .name (s.toList.map Char.toNat)
+
+/-- `pass; type X = int` NEWLINE: the alias keyword survives after `;` -/
+theorem typeAlias_after_semi :
+    (softKw .module [sp' (.kw .Pass), sp' (.op .Semi), sp' (.kw .Type_), sp' (nm' "X"), sp' (.op .Equal), sp' (nm' "int"),
+      sp' .newline]).map (·.tok) =
+    [.kw .Pass, .op .Semi, .kw .Type_, nm' "X", .op .Equal, nm' "int", .newline] := by decide
+
+/-- `if x: type X = int` NEWLINE: … and after the `:` of a one-line compound header -/
+theorem typeAlias_after_header_colon :
+    (softKw .module [sp' (.kw .If), sp' (nm' "x"), sp' (.op .Colon), sp' (.kw .Type_), sp' (nm' "X"), sp' (.op .Equal),
+      sp' (nm' "int"), sp' .newline]).map (·.tok) =
+    [.kw .If, nm' "x", .op .Colon, .kw .Type_, nm' "X", .op .Equal, nm' "int", .newline] := by decide
+
+/-- `{a: type X = 1}` NEWLINE: a `:` inside brackets does not start a statement, `type` is demoted to a name
+    (as before the repair); `x = 1; type = 2`: no name follows, demoted as well -/
+theorem type_in_brackets_stays_name :
+    (softKw .module [sp' (.op .Lbrace), sp' (nm' "a"), sp' (.op .Colon), sp' (.kw .Type_), sp' (nm' "X"), sp' (.op .Equal),
+      sp' (.int 1), sp' (.op .Rbrace), sp' .newline]).map (·.tok) =
+    [.op .Lbrace, nm' "a", .op .Colon, nm' "type", nm' "X", .op .Equal, .int 1, .op .Rbrace, .newline] ∧
+    (softKw .module [sp' (nm' "x"), sp' (.op .Equal), sp' (.int 1), sp' (.op .Semi), sp' (.kw .Type_), sp' (.op .Equal),
+      sp' (.int 2), sp' .newline]).map (·.tok) =
+    [nm' "x", .op .Equal, .int 1, .op .Semi, nm' "type", .op .Equal, .int 2, .newline] := by decide
+
 end PV.C01
